@@ -623,6 +623,19 @@ func Catch(prefix string, f func() string) (res string) {
 	return f()
 }
 
+// Direct reports whether t is pointer-shaped (stored directly in an interface word; abi.Type.IfaceIndir() == false).
+func Direct(t reflect.Type) bool {
+	switch t.Kind() {
+	case reflect.Ptr, reflect.Map, reflect.Chan, reflect.Func, reflect.UnsafePointer:
+		return true
+	case reflect.Struct:
+		return t.NumField() == 1 && Direct(t.Field(0).Type)
+	case reflect.Array:
+		return t.Len() == 1 && Direct(t.Elem())
+	}
+	return false
+}
+
 // Catalog dumps one line per catalogue type: name, kind, size, nilable, layout, implemented catalogue interfaces, term.
 func Catalog() []string {
 	var out []string
@@ -646,8 +659,8 @@ func Catalog() []string {
 			assign = []string{"-"}
 		}
 		_, hasFn := funcPool[d.Name]
-		out = append(out, fmt.Sprintf("type %s kind=%s rkind=%s size=%d layout=%s impl=%s assign=%s funcs=%v go=%s ;; %s", d.Name, CoarseKind(d.Typ.Kind()),
-			d.Typ.Kind(), d.Typ.Size(), Layout(d.Typ), strings.Join(impl, ","), strings.Join(assign, ","), hasFn, nosp(d.Typ.String()), TyTerm(d.Typ)))
+		out = append(out, fmt.Sprintf("type %s kind=%s rkind=%s size=%d layout=%s impl=%s assign=%s funcs=%v go=%s direct=%v ;; %s", d.Name, CoarseKind(d.Typ.Kind()),
+			d.Typ.Kind(), d.Typ.Size(), Layout(d.Typ), strings.Join(impl, ","), strings.Join(assign, ","), hasFn, nosp(d.Typ.String()), Direct(d.Typ), TyTerm(d.Typ)))
 	}
 	for _, m := range Multis {
 		out = append(out, fmt.Sprintf("multi %s %s", m.Name, strings.Join(m.Outs, ",")))
